@@ -237,8 +237,8 @@ TLAPS_MODULES = ("TLAPS.tla", "SequenceTheorems.tla", "FunctionTheorems.tla", "N
 
 
 def prove_mutex(tier="quick"):
-    """TLAPS: mutual exclusion, ConstructedOnce and EvaluatedOnce are invariants of ContainerConc for every instance
-    (ContainerConcProofs.tla). A full proof takes about five minutes; the quick tier starts from tlapm's own fingerprint file
+    """TLAPS: mutual exclusion, ConstructedOnce, EvaluatedOnce and ContextIsolation are invariants of ContainerConc for every instance
+    (ContainerConcProofs.tla). A full proof takes about ten minutes; the quick tier starts from tlapm's own fingerprint file
     (spec/ContainerConcProofs.fp: results keyed by the content of each obligation, so any obligation the current modules change
     is proved again), the thorough tier proves everything afresh."""
     import re
@@ -253,7 +253,7 @@ def prove_mutex(tier="quick"):
         cmd += ["--usefp", "start.fp"]
     else:
         cmd += ["--cleanfp"]
-    p = core.sh(cmd + ["ContainerConcProofs.tla"], cwd=d, check=False, timeout=3000, env=dict(os.environ))
+    p = core.sh(cmd + ["ContainerConcProofs.tla"], cwd=d, check=False, timeout=5400, env=dict(os.environ))
     m = re.search(r"All (\d+) obligations? proved", p.stdout)
     if not m:
         raise core.InfraError("TLAPS could not discharge the proof of mutual exclusion:\n" + p.stdout[-2000:])
@@ -453,9 +453,10 @@ def run_c20(tier):
         "exhaustive": False, "tlc_instances": tlc,
         "tlaps": {"module": "ContainerConcProofs.tla", "theorem": "for every instance (any goroutines, services, parameters, dependency relation, scripts): "
                   "Inv (typing; a frame inside a critical section belongs to the goroutine the lock table names; no goroutine holds one entry "
-                  "twice), OnceInv (built[s] tied to the position of the one frame inside the critical section of a shared s) and EvalInv "
-                  "(the same for evals[p] of a parameter) are inductive; Spec => []MutualExclusion, Spec => []ConstructedOnce and "
-                  "Spec => []EvaluatedOnce",
+                  "twice), OnceInv (built[s] tied to the position of the one frame inside the critical section of a shared s), EvalInv "
+                  "(the same for evals[p] of a parameter) and CtxInv (every instance in a frame, a bag, the shared cache or a result has the "
+                  "owner its place demands; no place holds a number not handed out yet) are inductive; Spec => []MutualExclusion, "
+                  "[]ConstructedOnce, []EvaluatedOnce and []ContextIsolation",
                   "obligations": obligations, "discharged": obligations, "instances_checked_against_Inv_by_TLC": bool(stdlib)}, "fine_grained_binding": {k: x for k, x in fine.items() if k != "sample"}, "operations_returned": n_ops, "trace_events": len(lines),
         "known_findings_hit": {k: n for k, (f, n) in v.known_hit.items()},
     }, time.time() - t0, violations=len(v.violations), assumptions=[
